@@ -258,7 +258,8 @@ func TestVerifC18Callback(t *testing.T) {
 		if err != nil {
 			t.Fatalf("%s: load: %v\n%s", sc.Name, err, sc.Build)
 		}
-		cbProj, err := Load(cbDir, &LoadOptions{})
+		base := &cbRecorder{} // the project's own listener: a run without a callback reports to it
+		cbProj, err := Load(cbDir, &LoadOptions{Events: base})
 		if err != nil {
 			t.Fatalf("%s: load: %v", sc.Name, err)
 		}
@@ -382,6 +383,50 @@ func TestVerifC18Callback(t *testing.T) {
 				if gm[l] != nil && string(a) != string(b) {
 					oracle("run %d (%+v): %s received %s, a plain Events implementation receives %s", ri, run, l, a, b)
 				}
+			}
+		}
+		{
+			// after the runs with a callback, one plain run: the project's own listener is the one the build reports to again,
+			// and it receives the build's stream (per label what the reference project's listener receives)
+			last := sc.Runs[len(sc.Runs)-1]
+			rec.mu.Lock()
+			rec.evs = nil
+			rec.mu.Unlock()
+			base.mu.Lock()
+			base.evs = nil
+			base.mu.Unlock()
+			l, _ := label.Parse(last.Target)
+			refProj.Run(l, &RunOptions{Always: true})
+			rec.mu.Lock()
+			ref := append([]cbEvent(nil), rec.evs...)
+			rec.mu.Unlock()
+			done := make(chan error, 1)
+			go func() {
+				_, err := starlark.ExecFile(thread, "repl.dawn", fmt.Sprintf("run(%q, always=True)\n", last.Target), pre)
+				done <- err
+			}()
+			select {
+			case <-done:
+				base.mu.Lock()
+				got := append([]cbEvent(nil), base.evs...)
+				base.mu.Unlock()
+				nruns++
+				events += len(got)
+				gm, gl := cbByLabel(got)
+				rm, rl := cbByLabel(ref)
+				if strings.Join(gl, " ") != strings.Join(rl, " ") {
+					oracle("plain run of %s after the runs with a callback: the project's listener has events for %v, the reference project's listener for %v", last.Target, gl, rl)
+				}
+				for _, l := range rl {
+					a, _ := json.Marshal(gm[l])
+					b, _ := json.Marshal(rm[l])
+					if gm[l] != nil && string(a) != string(b) {
+						oracle("plain run of %s after the runs with a callback: %s received %s, the reference project's listener receives %s", last.Target, l, a, b)
+					}
+				}
+			case <-time.After(20 * time.Second):
+				oracle("plain run of %s after the runs with a callback did not return within 20 s", last.Target)
+				hangs++
 			}
 		}
 	nextScenario:
